@@ -1271,3 +1271,8 @@ func sameVal(a, b ssa.Value) bool {
 	}
 	return resolveUp(ra) == resolveUp(rb)
 }
+
+func isUint64(t types.Type) bool {
+	b, ok := t.Underlying().(*types.Basic)
+	return ok && b.Kind() == types.Uint64
+}
